@@ -8,6 +8,8 @@ def write_scenarios(progs, path, extra=None):
         for p in progs:
             rec = {"src": p.get("src", ""), "ops": p.get("ops"), "kernel": p.get("kernel"), "inputs": [limbs(x) for x in p["inputs"]],
                    "adv": [limbs(x) for x in p.get("adv", [])], "max_cycles": 200000}
+            if p.get("mtree"):
+                rec["mtree"] = p["mtree"]
             if extra:
                 rec.update(extra)
             f.write(json.dumps(rec) + "\n")
@@ -112,3 +114,27 @@ def reject_signature(rj, runs):
     m = re.search(r'"fields", \{([^}]*)\}', rj["text"])
     fields = m.group(1).replace('"', "").replace(" ", "") if m else ("cannot-step" if "cannot step" in rj["text"] else "end")
     return "tv:%s:%s" % (ev.get("op", ev.get("e", "?")), fields), ev
+
+
+def cycle_boundary_programs(wd, targets=(62, 63, 64, 126, 127, 128, 254, 255, 256, 510, 511, 512), prof="release"):
+    """straight-line programs whose executions take exactly `targets` cycles (padded-length boundaries: n = 2^k - 1
+    leaves no room for a HALT row next to the random row unless the length doubles)"""
+    cands = []
+    for k in range(1, 470):
+        cands.append({"src": "begin\n  " + "neg " * k + "\nend\n", "kernel": None, "inputs": [3], "adv": [], "class": "cycles"})
+    inp = os.path.join(wd, "cyc_cands.ndjson")
+    write_scenarios(cands, inp)
+    outp = os.path.join(wd, "cyc_cands.out")
+    run_harness(prof, ["replay-masm", inp, outp])
+    by = {}
+    for c, line in zip(cands, open(outp)):
+        r = json.loads(line)
+        if r.get("outcome") == "ok":
+            by.setdefault(r["cycles"], c)
+    out = []
+    for t in targets:
+        if t in by:
+            p = dict(by[t])
+            p["class"] = "cycles-%d" % t
+            out.append(p)
+    return out
